@@ -96,6 +96,18 @@ def run(model, res, tier):
             res.ob('R6', '%s:%s' % (sm.name, sc.name), 'no override of on/once/emit/off', True)
 
 
+def emitter_rules(model, res):
+    """R1-R5 on every emitter class (used by the properties that depend on events being delivered as the emitter promises)."""
+    for m, c in find_emitter(model):
+        methods = dict((n.name, n) for n in c.body if isinstance(n, ast.FunctionDef))
+        store = storage_attr(m, c, methods)
+        _r1(model, res, m, c, methods, store)
+        _r2(model, res, m, c, methods, store)
+        _r3(model, res, m, c, methods, store)
+        _r4(model, res, m, c, methods, store)
+        _r5(model, res, m, c, methods, store)
+
+
 # ---------------------------------------------------------------------------------------------------
 
 def _listener_fields(model, m):
